@@ -133,14 +133,30 @@ func valueFromCommandText(commandText string) *variable.Value {
 		return variable.NewBoolean(false)
 	}
 
-	if commandText[0] == '+' { // see Antlr grammar, numbers don't start with + even though Go would be happy to parse them
-		return variable.NewString(commandText)
-	}
-	numberValue, err := strconv.ParseFloat(commandText, 64)
-	if err == nil {
-		return variable.NewNumber(numberValue)
+	// only decimal literals are numbers (see NUMBER in the Antlr grammar, optionally negated), even
+	// though Go would be happy to parse things like "+1", "inf", "1e3", ".5" or "0x10"
+	if isDecimalLiteral(commandText) {
+		numberValue, err := strconv.ParseFloat(commandText, 64)
+		if err == nil {
+			return variable.NewNumber(numberValue)
+		}
 	}
 	return variable.NewString(commandText)
+}
+
+// isDecimalLiteral tells whether text is of the form -?[0-9]+(.[0-9]+)?
+func isDecimalLiteral(text string) bool {
+	text = strings.TrimPrefix(text, "-")
+	integerPart, fractionalPart, hasFraction := strings.Cut(text, ".")
+	isDigits := func(s string) bool {
+		for _, r := range s {
+			if r < '0' || r > '9' {
+				return false
+			}
+		}
+		return s != ""
+	}
+	return isDigits(integerPart) && (!hasFraction || isDigits(fractionalPart))
 }
 
 type CallStatement struct {
